@@ -194,6 +194,8 @@ type World struct {
 var (
 	SrvV4 = &net.UDPAddr{IP: net.IPv4(10, 0, 0, 1).To4(), Port: 3478}
 	SrvV6 = &net.UDPAddr{IP: net.ParseIP("fd00:a::1"), Port: 3478}
+	// SrvAltV4 is a second address of the server host (a listener bound to 0.0.0.0 is reachable under both)
+	SrvAltV4 = net.IPv4(10, 0, 0, 7).To4()
 )
 
 // ClientSpec describes the scripted clients available to profiles.
@@ -212,6 +214,9 @@ var ClientSpec = map[string]struct {
 	"c2t": {&net.UDPAddr{IP: net.IPv4(10, 0, 0, 2).To4(), Port: 4001}, "u1"},
 	// a user to whom the operator's AuthHandler assigns the empty user id (the API allows it)
 	"c4": {&net.UDPAddr{IP: net.IPv4(10, 0, 0, 4).To4(), Port: 4000}, AnonUser},
+	// c1's very ip:port and user, but (in a world whose stream listener is bound to the unspecified address) connected to
+	// ANOTHER address of the multi-homed server: the two 5-tuples differ in the server address only
+	"c1m": {&net.UDPAddr{IP: net.IPv4(10, 0, 0, 2).To4(), Port: 4000}, "u1"},
 	// IPv4-compatible IPv6 address ::10.0.0.2 with c1's port: differs from c1 only in the first 12 address bytes
 	"c1x": {&net.UDPAddr{IP: net.IP{0, 0, 0, 0, 0, 0, 0, 0, 0, 0, 0, 0, 10, 0, 0, 2}, Port: 4000}, "u2"},
 }
@@ -391,8 +396,12 @@ func NewWorld(cfg Config, clients, peers []string) (*World, error) {
 		spec := ClientSpec[n]
 		c := &Client{Name: n, Addr: spec.Addr, User: spec.User, Pass: Users[spec.User], w: w}
 		if (cfg.Stream && !cfg.Dual) || (cfg.Dual && strings.HasSuffix(n, "t")) {
+			sip := w.SrvAddr.IP
+			if cfg.Wild && strings.HasSuffix(n, "m") {
+				sip = SrvAltV4
+			}
 			conn, err := w.Net.DialTCPAddr(&net.TCPAddr{IP: spec.Addr.IP, Port: spec.Addr.Port},
-				&net.TCPAddr{IP: w.SrvAddr.IP, Port: w.SrvAddr.Port})
+				&net.TCPAddr{IP: sip, Port: w.SrvAddr.Port})
 			if err != nil {
 				return nil, err
 			}
